@@ -268,8 +268,30 @@ func c13Docs(ctx *Ctx, r *Rng) {
 	defer func() {
 		bindCorrespondence(ctx, all, "path trees and their faulty variants")
 	}()
-	for i := 0; i < n && len(ctx.Violations) < 10; i++ {
-		res, doc := pathTreeDoc(r)
+	// hand-made trees whose paths have "." / ".." segments before a parameter: prefixes are TEXT, a resource whose cleaned
+	// prefix equals another one's shares nothing with it
+	dotTrees := [][]pathRes{
+		{{path: "/cats/{id}", decl: []string{"id"}, values: map[string]string{"id": "1"}}, {path: "/cats/./{id}"}},
+		{{path: "/cats/./{id}"}, {path: "/cats/{id}", decl: []string{"id"}, values: map[string]string{"id": "1"}}},
+		{{path: "/cats/{id}", decl: []string{"id"}, values: map[string]string{"id": "1"}}, {path: "/cats/./{id}", decl: []string{"id"}, values: map[string]string{"id": "2"}}},
+		{{path: "/{id}", decl: []string{"id"}, values: map[string]string{"id": "1"}}, {path: "/v1/../{id}/items/{item}", decl: []string{"item"}, values: map[string]string{"item": "3"}}},
+		{{path: "/a/{x}", url: true, decl: []string{"x"}, values: map[string]string{"x": "4"}}, {path: "/b/../a/{x}", url: true}, {path: "/a/b/../{x}"}},
+	}
+	for i := 0; i < n+len(dotTrees) && len(ctx.Violations) < 10; i++ {
+		var res []pathRes
+		var doc string
+		if i < len(dotTrees) {
+			res = dotTrees[i]
+			for k := range res {
+				if res[k].values == nil {
+					res[k].values = map[string]string{}
+				}
+			}
+			doc = renderPathTree(res, nil)
+			ctx.Cov.Hit("path tree with dot segments")
+		} else {
+			res, doc = pathTreeDoc(r)
+		}
 		all = append(all, []byte(doc))
 		run := RunProject(SingleFile([]byte(doc)), false)
 		cases++
